@@ -585,6 +585,106 @@ def display_measure_refs(tree):
     return shape % r
 
 
+STORING_METHODS = ("append", "add", "insert", "setdefault", "update", "extend", "__setitem__", "put", "set", "appendleft")
+
+
+def collect_result_flow(fn):
+    """Where the value `DataFrame.collect` returns comes from, and whether the function keeps it.
+
+    Returns `[kept, fresh]`:
+    * `fresh`: every `return` gives a local name `R` (or `R[k]`), and every binding of `R` in the function is a call of the
+      compiled helper (`collect_cython(…)`, or a `.copy()` of one) -- the array is made by this very call;
+    * `kept`: some statement stores a value that mentions `R` (or a local computed from `R`) somewhere that outlives the
+      call: an attribute or an item of anything (`self._x = …`, `cache[key] = …`), a name declared `global` / `nonlocal`,
+      a storing method of some container (`….append(R)`, `….setdefault(key, R)`), `setattr(…)`.
+    A shape this does not recognise raises (the item degrades to the pinned value, it never alarms)."""
+    returned = set()
+    for n in ast.walk(fn):
+        if isinstance(n, ast.Return) and n.value is not None:
+            v = n.value
+            if isinstance(v, ast.Subscript):
+                v = v.value
+            if not isinstance(v, ast.Name):
+                raise KeyError("a return that is neither a local name nor an item of one: " + ast.unparse(n.value)[:60])
+            returned.add(v.id)
+    if not returned:
+        raise KeyError("no return of a local name")
+
+    def is_kernel_call(e):
+        if isinstance(e, ast.Call) and isinstance(e.func, ast.Attribute) and e.func.attr == "copy" and not e.args:
+            e = e.func.value
+        return isinstance(e, ast.Call) and ((isinstance(e.func, ast.Name) and e.func.id == "collect_cython")
+                                            or (isinstance(e.func, ast.Attribute) and e.func.attr == "collect_cython"))
+
+    def names_in(e):
+        return {x.id for x in ast.walk(e) if isinstance(x, ast.Name)}
+
+    def targets_of(n):
+        if isinstance(n, ast.Assign):
+            return n.targets, n.value
+        if isinstance(n, (ast.AnnAssign, ast.AugAssign)) and n.value is not None:
+            return [n.target], n.value
+        if isinstance(n, ast.NamedExpr):
+            return [n.target], n.value
+        return [], None
+
+    bindings = {r: [] for r in returned}
+    outer = set()
+    for n in ast.walk(fn):
+        if isinstance(n, (ast.Global, ast.Nonlocal)):
+            outer.update(n.names)
+        tg, val = targets_of(n)
+        for t in tg:
+            for x in ast.walk(t):
+                if isinstance(x, ast.Name) and x.id in bindings and isinstance(x.ctx, ast.Store):
+                    bindings[x.id].append(val if isinstance(t, ast.Name) else None)
+        if isinstance(n, (ast.For, ast.With, ast.comprehension)):
+            for x in ast.walk(n.target if not isinstance(n, ast.With) else ast.Tuple(elts=[i.optional_vars for i in n.items if i.optional_vars], ctx=ast.Store())):
+                if isinstance(x, ast.Name) and x.id in bindings:
+                    bindings[x.id].append(None)
+    if any(not b for b in bindings.values()):
+        raise KeyError("a returned name with no binding in the function (a parameter?)")
+    fresh = all(v is not None and is_kernel_call(v) for b in bindings.values() for v in b)
+    # locals computed from the result (one pass per nesting level is enough for the shapes in question)
+    tainted = set(returned)
+    for _ in range(3):
+        for n in ast.walk(fn):
+            tg, val = targets_of(n)
+            if val is not None and names_in(val) & tainted:
+                for t in tg:
+                    if isinstance(t, ast.Name):
+                        tainted.add(t.id)
+                    elif isinstance(t, (ast.Tuple, ast.List)):
+                        tainted.update(x.id for x in t.elts if isinstance(x, ast.Name))
+    kept = False
+    for n in ast.walk(fn):
+        tg, val = targets_of(n)
+        if val is not None and names_in(val) & tainted:
+            for t in tg:
+                if isinstance(t, (ast.Attribute, ast.Subscript)) and not (isinstance(t, ast.Subscript) and isinstance(t.value, ast.Name) and t.value.id in tainted - returned):
+                    kept = True
+                if isinstance(t, ast.Name) and t.id in outer:
+                    kept = True
+        if isinstance(n, ast.Call):
+            args = list(n.args) + [k.value for k in n.keywords]
+            if any(names_in(a) & tainted for a in args):
+                if isinstance(n.func, ast.Attribute) and n.func.attr in STORING_METHODS and not (isinstance(n.func.value, ast.Name) and n.func.value.id in tainted - returned):
+                    kept = True
+                if isinstance(n.func, ast.Name) and n.func.id == "setattr":
+                    kept = True
+    return [kept, fresh]
+
+
+def getitem_direct(tree):
+    """`DataFrame.__getitem__` is one statement, `return self.collect(…)`: it adds no state of its own to a request."""
+    fn = find_function(tree, "__getitem__", "DataFrame")
+    body = [b for b in fn.body if not (isinstance(b, ast.Expr) and isinstance(b.value, ast.Constant))]
+    if len(body) == 1 and isinstance(body[0], ast.Return) and isinstance(body[0].value, ast.Call):
+        f = body[0].value.func
+        return isinstance(f, ast.Attribute) and f.attr == "collect" and isinstance(f.value, ast.Name) and f.value.id == "self"
+    return False
+
+
 def generate(o):
     df = Src("orso/dataframe.py")
     disp = Src("orso/display.py")
@@ -596,6 +696,8 @@ def generate(o):
     kl = o.item("site.collect.kernel_limit", lambda: kernel_limit(fn_collect()), "limit")
     si = o.item("site.collect.single_index", lambda: single_index(fn_collect()), 0)
     ic = o.item("site.collect.index_conversion_checked", lambda: index_conversion(fn_collect()), True)
+    rf = o.item("site.collect.result_flow", lambda: collect_result_flow(fn_collect()), [False, True])
+    gd = o.item("site.getitem.direct", lambda: getitem_direct(df.tree), True)
     rg = o.item("site.row.glue", lambda: row_glue(Src("orso/row.py").tree), [PINNED_ROW_GUARD, PINNED_ROW_PREPARE, PINNED_ROW_PRE])
     ag = o.item("site.append.glue", lambda: append_glue(df.tree), PINNED_APPEND_PREPARE)
     ml = o.item("site.display.measure_limit", lambda: display_measure_limit(disp.tree), "none")
@@ -618,6 +720,13 @@ def generate(o):
     t += "/-- DataFrame.collect: the resolved positions become the kernel's int32 buffer by a conversion that *rejects* a value\n"
     t += "outside int32 (`numpy.array(…, dtype=numpy.int32)`: OverflowError) -- `false`: by one that wraps it around (`.astype`) -/\n"
     t += "def indexConvChecked : Bool := %s\n" % ("true" if ic else "false")
+    t += "/-- DataFrame.collect: some statement stores the array it returns (or something computed from it) where it outlives the\n"
+    t += "call -- an attribute or item of anything, a global, a container's storing method (`collect_result_flow`) -/\n"
+    t += "def resultKept : Bool := %s\n" % ("true" if rf[0] else "false")
+    t += "/-- DataFrame.collect: the name it returns is bound by calls of the compiled helper only (the array is made by this call) -/\n"
+    t += "def resultFresh : Bool := %s\n" % ("true" if rf[1] else "false")
+    t += "/-- DataFrame.__getitem__ is the single statement `return self.collect(…)` -/\n"
+    t += "def getitemDirect : Bool := %s\n" % ("true" if gd else "false")
     t += "/-- ascii_table: the limit passed to `t.collect(i, …)` inside `calculate_data_width(…)`; `none` = not limited -/\n"
     t += "@[simp] def measureLimit (limit : Int) : Option Int := %s\n" % ml
     t += "/-- ascii_table: the column handed to `t.collect(…)` for each printed column, in order: `Sum.inl` = a position,\n"
